@@ -14,6 +14,8 @@ they are reported as `not-evaluable` and stay covered only by the bounded Engine
 """
 from __future__ import annotations
 
+import operator
+
 import numpy as np
 
 from . import objsym as O
@@ -95,7 +97,8 @@ def shard(args):
     def ops_unary():
         ops = [(p, lambda v, p=p: getattr(v, p)) for p in E.PLANAR_PROPS]
         ops += [("unit", lambda v: v.unit()), ("scale", lambda v: v.scale(k)), ("scale2D", lambda v: v.scale2D(k)), ("rotateZ", lambda v: v.rotateZ(ang)),
-                ("-v", lambda v: -v), ("v*k", lambda v: v * k), ("k*v", lambda v: k * v), ("v/k", lambda v: v / k), ("abs", lambda v: abs(v)), ("v**2", lambda v: v ** 2),
+                ("-v", lambda v: -v), ("v*k", lambda v: v * k), ("k*v", lambda v: k * v), ("v/k", lambda v: v / k),
+                ("v*=k", E._inplace(operator.imul, k)), ("v/=k", E._inplace(operator.itruediv, k)), ("abs", lambda v: abs(v)), ("v**2", lambda v: v ** 2),
                 ("to_Vector2D", lambda v: v.to_Vector2D()), ("to_Vector3D", lambda v: v.to_Vector3D()), ("to_Vector4D", lambda v: v.to_Vector4D()),
                 ("to_xy", lambda v: v.to_xy()), ("to_rhophi", lambda v: v.to_rhophi()), ("to_xyzt(z,t)", lambda v: v.to_xyzt(z=T("kz"), t=T("kt"))),
                 ("to_rhophietatau(eta,tau)", lambda v: v.to_rhophietatau(eta=T("ke"), tau=T("ktau"))), ("to_Vector4D(z,t)", lambda v: v.to_Vector4D(z=T("kz"), t=T("kt"))),
